@@ -14,6 +14,7 @@ import (
 	"go/types"
 	"os"
 	"path/filepath"
+	"reflect"
 	"regexp"
 	"sort"
 	"strconv"
@@ -66,6 +67,10 @@ type Ctx struct {
 
 func (c *Ctx) pos(n ast.Node) string {
 	if n == nil {
+		return ""
+	}
+	// a nil *ast.FuncDecl (anchor not found) stored in the interface is not == nil
+	if rv := reflect.ValueOf(n); rv.Kind() == reflect.Ptr && rv.IsNil() {
 		return ""
 	}
 	p := c.P.Fset.Position(n.Pos())
